@@ -1,10 +1,287 @@
--- C15: FRI completeness and the folding identity (property theorems)
-import Winter.Model.Fri
+-- C15: FRI completeness and the folding identity (property theorems).
+--
+-- Model: Winter/Model/Fri.lean (apply_drp, get_inv_offsets, fold_positions, map_positions_to_indexes, transposition,
+-- num_fri_layers, the prover state machine, the verifier), instantiated here with an arbitrary Mathlib field `F`
+-- (`fieldOps root rootOk offset`; `root k` plays `get_root_of_unity(k)`, `offset` the domain offset).  No size bound
+-- anywhere; the folding factor `N` is arbitrary (`N ∈ {2,4,8,16}` are instances).
+--
+--   ★ folding identity            apply_drp_folding_identity, prover_row_eq_verifier_row
+--   ★ positions                   fold_positions_is_dedup_mod (+ characterisation of the de-duplication)
+--   ★ layout                      transposed_row_layout, get_query_values_returns_value_at_position
+--   ★ layers / remainder size     num_fri_layers_spec, num_fri_layers_le_log2, remainder_has_le_max_coefficients
+--   ★ prover reuse                build_proof_resets_prover, reset_prover_accepts_new_request
+--   ◐ completeness                fri_complete_partial (full on the model; what is partial is said at the theorem)
+--   witness of the known finding  overshoot_config_has_no_proof (+ a concrete configuration)
+import WinterProofs.Lemmas.C15Complete
+import WinterProofs.Lemmas.C15Overshoot
+import Mathlib.Algebra.Field.ZMod
 
 namespace WinterProofs.C15
-open Model.Fri
 
-/-- prover reuse: `build_proof` leaves the prover in its initial state -/
-theorem prover_reset_eq_init {α : Type} (p : Prover α) : p.reset = Prover.init := rfl
+open Model.Fri Finset Polynomial
+
+/-! ## the folding identity -/
+
+section fold
+variable {F : Type} [Field F] [DecidableEq F] (root : ℕ → F) (rootOk : ℕ → Bool) (offset : F)
+set_option linter.unusedSectionVars false
+
+/-- FOLDING IDENTITY (all folding factors `N ≥ 1`, all domain sizes `n = m·N`): for `f = Σ_k X^k f_k(X^N)`,
+    `apply_drp` applied to the evaluations of `f` over the coset `offset·<g>` (transposed into rows of `N`) and
+    the challenge `α` yields the evaluations over the folded coset `{(offset·g^i)^N}` of `Σ_k α^k f_k`
+    (`FriAlg.foldPoly N f α`, whose `m`-th coefficient is `Σ_k α^k c_{N·m+k}`: `FriAlg.coeff_foldPoly`).
+    Hypotheses: the two roots of unity the code asks for exist, `g` is a primitive `n`-th root, the `N`-th root is
+    `g^(n/N)` (coherence of `get_root_of_unity`), the offset is non-zero. -/
+theorem apply_drp_folding_identity (N m : ℕ) (hN : 0 < N) (hm : 0 < m)
+    (hok : rootOk (Nat.log2 (m * N)) = true) (hokN : rootOk (Nat.log2 N) = true)
+    (hg : IsPrimitiveRoot (root (Nat.log2 (m * N))) (m * N))
+    (hζ : root (Nat.log2 N) = root (Nat.log2 (m * N)) ^ m)
+    (hoff : offset ≠ 0) (f : F[X]) (α : F) (rows : List (List F))
+    (hT : transpose N (evalsOf offset (root (Nat.log2 (m * N))) f (m * N)) = some rows) :
+    applyDrp (fieldOps root rootOk offset) N rows α = .ok ((List.range m).map fun i =>
+      (FriAlg.foldPoly N f α).eval ((offset * root (Nat.log2 (m * N)) ^ i) ^ N)) :=
+  applyDrp_fold root rootOk offset N m hN hm hok hokN hg hζ hoff f α rows hT
+
+/-- the coefficients of the folded polynomial: interleaved slices combined with powers of the challenge -/
+theorem folded_polynomial_coefficients (N : ℕ) (hN : 0 < N) (f : F[X]) (α : F) (m : ℕ) :
+    (FriAlg.foldPoly N f α).coeff m = ∑ k ∈ range N, α ^ k * f.coeff (N * m + k) :=
+  FriAlg.coeff_foldPoly hN f α m
+
+/-- "the degree-`<N` interpolant through `(x·ζ^j, f(x·ζ^j))` is `Σ_k y^k f_k(x^N)`": its `k`-th coefficient,
+    computed by the scaled inverse DFT of the row, is `f_k(x^N)` -/
+theorem row_interpolant_coefficients (N : ℕ) (hN : 0 < N) (ζ x : F) (hζ : IsPrimitiveRoot ζ N) (hx : x ≠ 0)
+    (f : F[X]) (k : ℕ) (hk : k < N) :
+    (N : F)⁻¹ * (x⁻¹) ^ k * ∑ j ∈ range N, f.eval (x * ζ ^ j) * (ζ⁻¹) ^ (j * k) = (FriAlg.slice N k f).eval (x ^ N) :=
+  FriAlg.interp_coeff hN hζ hx f hk
+
+/-- prover and verifier compute the same value from a row, whatever the row contains: the verifier's Lagrange
+    interpolation through the points `x·ζ^j` evaluated at `α` equals the prover's `apply_drp` row computation
+    (inverse DFT of size `N`, scaling by the inverse offsets, Horner at `α`) -/
+theorem prover_row_eq_verifier_row (N : ℕ) (hN : 0 < N) (ζ : F) (hζ : IsPrimitiveRoot ζ N) (dg : F) (i : ℕ)
+    (hx : dg ^ i * offset ≠ 0) (row : List F) (hlen : row.length = N) (α : F) :
+    lagrangeEval (fieldOps root rootOk offset)
+        (rowPoints (fieldOps root rootOk offset) ((List.range N).map fun j => ζ ^ j) dg i) row α
+      = drpRow (fieldOps root rootOk offset) ζ⁻¹ ((N : F))⁻¹ α row (dg ^ i * offset)⁻¹ :=
+  lagrangeEval_rowPoints_eq_drpRow root rootOk offset N hN ζ hζ dg i hx row hlen α
+
+end fold
+
+/-! ## positions -/
+
+/-- `fold_positions` is the order-preserving de-duplication of `p mod (n/N)`; prover (`build_proof`) and verifier
+    (`verify_generic`) call this same function with the same arguments, so their folded positions agree -/
+theorem fold_positions_is_dedup_mod (ps : List Nat) (n N : Nat) (h : n / N ≠ 0) :
+    foldPositions ps n N = some (dedupKeepFirst (ps.map (· % (n / N)))) :=
+  foldPositions_eq ps n N h
+
+/-- what "order-preserving de-duplication" means: no duplicates, same elements, order of first occurrences -/
+theorem dedup_characterisation (l : List Nat) :
+    (dedupKeepFirst l).Nodup ∧ (∀ x, x ∈ dedupKeepFirst l ↔ x ∈ l) ∧ (dedupKeepFirst l).Sublist l ∧
+      dedupKeepFirst l = l.eraseDups :=
+  ⟨dedupKeepFirst_nodup l, mem_dedupKeepFirst l, dedupKeepFirst_sublist l, dedupKeepFirst_eq_eraseDups l⟩
+
+/-- every queried position finds its folded position (the `unwrap` in `get_query_values` cannot fail) -/
+theorem folded_position_found {ps folded : List Nat} {n N : Nat} (h : n / N ≠ 0)
+    (hf : foldPositions ps n N = some folded) :
+    ∀ p ∈ ps, ∃ idx, folded.idxOf? (p % (n / N)) = some idx ∧ folded[idx]? = some (p % (n / N)) :=
+  foldPositions_idxOf h hf
+
+/-! ## layout -/
+
+/-- row `r` of the transposed layer holds the evaluations at positions `r + j·(n/N)`, `j < N` -/
+theorem transposed_row_layout {α : Type} (N : Nat) (xs : List α) (m : Nat) (hN : 0 < N) (h : xs.length = m * N) :
+    ∃ rows, transpose N xs = some rows ∧ rows.length = m ∧
+      ∀ r, r < m → ∃ row, rows[r]? = some row ∧ row.length = N ∧ ∀ j, j < N → row[j]? = xs[r + j * m]? :=
+  transpose_some N xs m hN h
+
+/-- `get_query_values` on the rows the prover opens at the folded positions returns `f(position)` for every
+    queried position (duplicates and positions that collide after folding included) -/
+theorem get_query_values_returns_value_at_position {α : Type} (N m : Nat) (hN : 0 < N) (hm : 0 < m)
+    (xs : List α) (hlen : xs.length = m * N) (ps : List Nat) (hps : ∀ p ∈ ps, p < m * N) :
+    ∃ rowsT folded opened vals, transpose N xs = some rowsT ∧ foldPositions ps (m * N) N = some folded ∧
+      queryLayer ⟨rowsT⟩ folded = some opened ∧ getQueryValues opened ps folded (m * N) N = some vals ∧
+      vals.length = ps.length ∧ ∀ k, (hk : k < ps.length) → vals[k]? = xs[ps[k]]? :=
+  getQueryValues_honest' N m hN hm xs hlen ps hps
+
+/-! ## number of layers, size of the remainder -/
+
+/-- `num_fri_layers` (defined by well-founded recursion: it terminates for every folding factor `≥ 2`) returns
+    the least `L` with `domain / N^L ≤ (remainder_max_degree+1)·blowup` -/
+theorem num_fri_layers_spec (o : Opts) (d : Nat) :
+    d / o.folding ^ (numFriLayers o d) ≤ (o.remMaxDeg + 1) * o.blowup ∧
+      ∀ k, k < numFriLayers o d → (o.remMaxDeg + 1) * o.blowup < d / o.folding ^ k :=
+  numFriLayers_spec o d
+
+theorem num_fri_layers_le_log2 (o : Opts) (d : Nat) (hb : 0 < o.blowup) : numFriLayers o d ≤ Nat.log2 d :=
+  numFriLayers_le_log2 o d hb
+
+/-- the remainder (`len/blowup` coefficients of the last layer) has at most `remainder_max_degree + 1`
+    coefficients -/
+theorem remainder_has_le_max_coefficients (o : Opts) (d : Nat) (hb : 0 < o.blowup) :
+    d / o.folding ^ (numFriLayers o d) / o.blowup ≤ o.remMaxDeg + 1 :=
+  remainder_len_le o d hb
+
+/-! ## prover reuse -/
+
+/-- after `build_proof` the prover is in its initial state -/
+theorem build_proof_resets_prover {α : Type} (o : Opts) (p p' : Prover α) (ps : List Nat)
+    (pls : List (ProofLayer α)) (rem : List α) (h : p.buildProof o ps = .ok (p', pls, rem)) :
+    p' = Prover.init := by
+  unfold Prover.buildProof at h
+  simp only at h
+  repeat' (split at h)
+  all_goals first | (cases h; rfl) | (simp at h)
+
+/-- … and the initial state passes the assertion of `build_layers` ("a prior proof generation request has not
+    been completed yet"): a further request behaves exactly as on a fresh prover -/
+theorem reset_prover_accepts_new_request {α : Type} (F : FOps α) (o : Opts) (p : Prover α) (αs evals : List α) :
+    Prover.buildLayers F o p.reset αs evals = Prover.buildLayers F o Prover.init αs evals := rfl
+
+/-! ## completeness -/
+
+section complete
+variable {F : Type} [Field F] [DecidableEq F] (root : ℕ → F) (rootOk : ℕ → Bool) (offset : F)
+
+/-- COMPLETENESS (`fri_complete_partial`).  For every polynomial `f` of degree `< t·N^L` (the bound), every
+    non-empty list of in-range query positions (duplicates, collisions after folding), every list of challenges:
+    the honest prover does not panic, is back in its initial state after `build_proof`, its remainder has `t`
+    coefficients, and the verifier — given the opened rows with Merkle flag `true`, the commitments with the hash
+    of the remainder last, and the claimed evaluations `f(position)` — accepts.
+    Proved in full ON THE MODEL.  What is partial with respect to the code:
+      * Merkle completeness (C10) enters as the flag `true` of every honest opening, the hash as a function
+        `hashRem` with a lawful equality on digests;
+      * that `serial_fft`/`interpolate_poly_with_offset` compute the (inverse) DFT the model uses is C09, that
+        `interpolate_batch` computes the Lagrange interpolant is C20: tied by the correspondence run, not proved;
+      * the roots of unity must be coherent (`StepOK`: `get_root_of_unity(k) = TWO_ADIC_ROOT^(2^(S−k))`), C07;
+      * configurations with `t = 0` (the folding overshoots the remainder) are excluded: there the property
+        fails, see `overshoot_config_has_no_proof`. -/
+theorem fri_complete_partial (o : Opts) (t L : ℕ) (ht : 0 < t) (hb : 0 < o.blowup)
+    (hpow : nextPow2 (t * o.folding ^ L) = t * o.folding ^ L)
+    (ht2 : 2 ^ Nat.log2 t = t)
+    (hL : numFriLayers o (t * o.blowup * o.folding ^ L) = L)
+    (hsteps : ∀ j, j < L → StepOK root rootOk o.folding (t * o.blowup * o.folding ^ (L - j)))
+    (hlastok : rootOk (Nat.log2 (t * o.blowup)) = true)
+    (hlastprim : IsPrimitiveRoot (root (Nat.log2 (t * o.blowup))) (t * o.blowup))
+    (hlast2 : 2 ^ Nat.log2 (t * o.blowup) = t * o.blowup)
+    (hoff : offset ≠ 0) (f : F[X]) (hf : f.natDegree < t * o.folding ^ L)
+    (αs : List F) (hαs : αs.length = L + 1)
+    (positions : List ℕ) (hpos : ∀ p ∈ positions, p < t * o.blowup * o.folding ^ L) (hne : positions ≠ [])
+    {D : Type} [BEq D] [LawfulBEq D] (hashRem : List F → D) (layerCommits : List D)
+    (hlc : layerCommits.length = L) :
+    ∃ st pls rem,
+      Prover.buildLayers (fieldOps root rootOk offset) o Prover.init αs
+        (evalsOf offset (root (Nat.log2 (t * o.blowup * o.folding ^ L))) f (t * o.blowup * o.folding ^ L)) = .ok st ∧
+      st.buildProof o positions = .ok (Prover.init, pls, rem) ∧
+      rem.length = t ∧
+      verify (fieldOps root rootOk offset) true hashRem o
+        { maxPolyDegree := t * o.folding ^ L - 1
+          numPartitions := 1
+          commitments := layerCommits ++ [hashRem rem]
+          alphas := αs
+          layers := pls.map (fun pl => ⟨true, pl⟩)
+          remainder := rem
+          positions := positions
+          evaluations := positions.map
+            ((evalsOf offset (root (Nat.log2 (t * o.blowup * o.folding ^ L))) f
+              (t * o.blowup * o.folding ^ L)).getD · 0) } = .ok () :=
+  fri_complete_model root rootOk offset o t L ht hb hpow ht2 hL hsteps hlastok hlastprim hlast2 hoff f hf αs hαs
+    positions hpos hne hashRem layerCommits hlc
+
+end complete
+
+/-! ### the hypotheses of `fri_complete_partial` are satisfiable: folding 2, one layer, over `ZMod 17` -/
+
+section example17
+
+instance : Fact (Nat.Prime 17) := ⟨by decide⟩
+
+/-- `get_root_of_unity(k)` of the field with 17 elements (3 generates the multiplicative group, of order 2^4) -/
+def root17 (k : ℕ) : ZMod 17 := 3 ^ (16 / 2 ^ k)
+def rootOk17 (k : ℕ) : Bool := k != 0 && decide (k ≤ 4)
+/-- blowup 2, folding 2, remainder of up to 2 coefficients -/
+def opts17 : Opts := ⟨2, 2, 1, Or.inl rfl⟩
+
+theorem prim17 (k : ℕ) (hk : k ≤ 4) : IsPrimitiveRoot (root17 k) (2 ^ k) := by
+  interval_cases k <;>
+    exact IsPrimitiveRoot.mk_of_lt _ (by norm_num) (by decide)
+      (by intro l hl0 hl; interval_cases l <;> decide)
+
+/-- trace length 4 = 2·2^1 (t = 2 remainder coefficients, L = 1 layer), domain 8, f = X³ + 2X + 5, queries with a
+    duplicate and a collision after folding -/
+example : ∃ st pls rem,
+    Prover.buildLayers (fieldOps root17 rootOk17 3) opts17 Prover.init [2, 7]
+      (evalsOf 3 (root17 (Nat.log2 8)) (X ^ 3 + C 2 * X + C 5) 8) = .ok st ∧
+    st.buildProof opts17 [1, 5, 1, 6] = .ok (Prover.init, pls, rem) ∧ rem.length = 2 ∧
+    verify (fieldOps root17 rootOk17 3) true id opts17
+      { maxPolyDegree := 3, numPartitions := 1, commitments := [[]] ++ [id rem], alphas := [2, 7],
+        layers := pls.map (fun pl => ⟨true, pl⟩), remainder := rem, positions := [1, 5, 1, 6],
+        evaluations := [1, 5, 1, 6].map
+          ((evalsOf 3 (root17 (Nat.log2 8)) (X ^ 3 + C 2 * X + C 5 : (ZMod 17)[X]) 8).getD · 0) } = .ok () := by
+  have hstep : StepOK root17 rootOk17 2 8 :=
+    { ok := by decide
+      okN := by decide
+      prim := by
+        have : Nat.log2 8 = 3 := by decide
+        rw [this]; exact prim17 3 (by norm_num)
+      zeta := by
+        have h8 : Nat.log2 8 = 3 := by decide
+        have h2 : Nat.log2 2 = 1 := by decide
+        rw [h8, h2]; decide
+      next := by
+        have h8 : Nat.log2 8 = 3 := by decide
+        have h4 : Nat.log2 (8 / 2) = 2 := by decide
+        rw [h8, h4]; decide }
+  have hdeg : (X ^ 3 + C 2 * X + C 5 : (ZMod 17)[X]).natDegree < 2 * 2 ^ 1 := by
+    have : (X ^ 3 + C 2 * X + C 5 : (ZMod 17)[X]).natDegree ≤ 3 := by
+      compute_degree
+    omega
+  have h := fri_complete_partial root17 rootOk17 (3 : ZMod 17) opts17 2 1 (by norm_num) (by decide)
+    (by decide) (by decide) (by decide +kernel)
+    (fun j hj => by
+      have : j = 0 := by omega
+      subst this
+      exact hstep)
+    (by decide)
+    (by
+      have : Nat.log2 (2 * opts17.blowup) = 2 := by decide
+      rw [this]; exact prim17 2 (by norm_num))
+    (by decide) (by decide) (X ^ 3 + C 2 * X + C 5) hdeg [2, 7] rfl [1, 5, 1, 6]
+    (by decide) (by decide) (D := List (ZMod 17)) id [[]] rfl
+  exact h
+
+end example17
+
+/-! ## the known finding: configurations whose folding overshoots the remainder -/
+
+/-- Witness of the known finding `fri.overshoot-config.panic`: when `domain / N^layers < blowup` (the folding jumps
+    from above `remainder_max_degree + 1` coefficients to below one) no proof exists — `build_layers` either panics
+    or leaves an empty remainder, on which `build_proof` panics; for every field, polynomial, α's and queries.
+    `fri_complete_partial` excludes exactly these configurations (`0 < t`, `trace length = t·N^L`). -/
+theorem overshoot_config_has_no_proof {α : Type} (F : FOps α) (o : Opts) (αs evals : List α)
+    (positions : List Nat)
+    (hover : evals.length / o.folding ^ numFriLayers o evals.length < o.blowup)
+    (st : Prover α) (h : Prover.buildLayers F o Prover.init αs evals = .ok st) :
+    ∃ s, st.buildProof o positions = .panic s :=
+  overshoot_no_proof F o αs evals positions hover st h
+
+/-- a configuration accepted by `FriOptions::new` (and by `ProofOptions::new` with trace length 8) that overshoots:
+    blowup 2, folding 4, remainder degree 0, domain 16 (trace length 8): two layers, last domain 1 < blowup -/
+theorem overshoot_config_exists :
+    let o : Opts := ⟨2, 4, 0, Or.inr (Or.inl rfl)⟩
+    numFriLayers o 16 = 2 ∧ 16 / o.folding ^ numFriLayers o 16 < o.blowup := by
+  decide +kernel
+
+/-- hence completeness as the property states it ("every supported folding factor, blowup factor, remainder size")
+    fails on the model of the code: for this configuration no input makes prover and verifier succeed -/
+theorem fri_complete_fails_on_overshoot {α : Type} (F : FOps α) (αs evals : List α) (hlen : evals.length = 16)
+    (positions : List Nat) :
+    ¬ ∃ st st' pls rem,
+      Prover.buildLayers F ⟨2, 4, 0, Or.inr (Or.inl rfl)⟩ Prover.init αs evals = .ok st ∧
+      st.buildProof ⟨2, 4, 0, Or.inr (Or.inl rfl)⟩ positions = .ok (st', pls, rem) := by
+  rintro ⟨st, st', pls, rem, h1, h2⟩
+  obtain ⟨s, hs⟩ := overshoot_no_proof F ⟨2, 4, 0, Or.inr (Or.inl rfl)⟩ αs evals positions
+    (by rw [hlen]; exact overshoot_config_exists.2) st h1
+  rw [hs] at h2
+  exact absurd h2 (by simp)
 
 end WinterProofs.C15
